@@ -184,13 +184,13 @@ def _c19_hist_rule():
             "FGG.from_hrg sharing the HRG's rule objects; .copy() of a queried object; rules added in two stages around a sum_products call), "
             "then 1-3 rounds of in-place edits -- rhs.add_edge of a nonterminal edge (70% against the generation order), rhs.remove_edge, "
             "relabelling an edge, rule.rhs = rule.rhs.copy(), new factor weights, and in a third of the histories add_rule -- with "
-            "nonterminal_graph, scc and sum_products (fixed-point / newton) queried on the SAME object before the first and after every round, "
-            "and on .copy() at the end; each answer is judged against the grammar as it is at that moment (ntg_check, scc_check, "
-            "sp_order_check on the blocks handed to the per-component solver and the keys of the result) and compared bit for bit with an "
-            "equal grammar built afresh and never queried; non-trivial = a round that keeps the numbers of nonterminals and rules and "
+            "nonterminal_graph, scc, sum_products (fixed-point / newton) and viterbi queried on the SAME object before the first and after every round, "
+            "and on .copy() at the end; every sixth grammar is a cycle through 2-4 nonterminals; each answer is judged against the grammar as it is "
+            "at that moment (ntg_check, scc_check, sp_order_check on the blocks handed to the per-component solver -- for viterbi the components "
+            "it visits -- and the keys of the result) and compared (values bit for bit, blocks, exceptions) with an equal grammar built afresh and never queried; non-trivial = a round that keeps the numbers of nonterminals and rules and "
             "changes the SCC decomposition, distinct by (rules before, rules after)")
 
-ASSUMPTIONS.append("stream hist observes the order in which sum_products solves the nonterminals at SumProduct.apply_to_patterned_tensors (out_labels of the successive calls) and through the key order of the returned dict; both must agree")
+ASSUMPTIONS.append("stream hist observes the order in which sum_products solves the nonterminals at SumProduct.apply_to_patterned_tensors (out_labels of the successive calls) and through the key order of the returned dict; both must agree; the components viterbi visits are observed at fggs.viterbi.FGGMultiShape(fgg, comp)")
 MANIFEST["text"] += (" The last clause of the property (every nonterminal's sum-product is computed after those it depends on and every nonterminal "
                      "receives a value) is C19_sum_products_order: verdict 0 of sp_order_check on an observed call means every nonterminal has a value, lies in "
                      "exactly one block, and everything its rules mention lies in the same or an earlier block, for the grammar as it is at the time of the call; "
